@@ -48,7 +48,7 @@ CHECKS = {
 }
 
 TIERS = {
-    "quick": {"runs": 2400},
+    "quick": {"runs": 4000},
     "thorough": {"runs": 120000},
 }
 
